@@ -467,6 +467,8 @@ class Tr:
             if e[1] in ("<", "<=", ">", ">=", "==", "!=", "&&", "||"):
                 return "bool"
             ta, tb = self.ty(e[2]), self.ty(e[3])
+            if ta == "Rot2" and vdim(tb) == 2:
+                return "Vector2"
             d = vdim(ta) or vdim(tb)
             if d:
                 # point - point, point +- vector, vector +- vector, vector * / scalar: all plain coordinate tuples in the model
@@ -521,6 +523,12 @@ class Tr:
                 return p[0]
             if len(p) == 2 and p[0] == "Unit" and p[1] in ("new_normalize", "new_unchecked"):
                 return self.ty(e[2][0])
+            if p == ["Iso2", "rotation"]:
+                return "Rot2"
+            if len(p) == 2 and p[0] == "f64":
+                return "f64"
+            if p == ["dist"]:
+                return "f64"
             key = (owner, p[-1])
             if key in self.c.fn_index:
                 r = self.c.fn_index[key][1]
@@ -579,6 +587,8 @@ class Tr:
                 return "(%s %s %s)" % ("andb" if op == "&&" else "orb", A, B)
             tb = self.ty(b)
             da, db = vdim(self.ty(a)), vdim(tb)
+            if self.ty(a) == "Rot2" and db == 2 and op == "*":
+                return "(rot2 %s %s)" % (A, B)       # Iso2::rotation(t) * v: unit complex multiplication (Model.Circle.rot2)
             if da or db:
                 d = da or db
                 if op in ("+", "-") and da and db:
@@ -692,6 +702,17 @@ class Tr:
                     return self.ex(args[0])
                 if p[1] == "new_normalize" and len(args) == 1:
                     return "(normalize%d %s)" % (d, self.ex(args[0]))
+            if p == ["Iso2", "rotation"] and len(args) == 1:
+                return self.ex(args[0])
+            if len(p) == 2 and p[0] == "f64":
+                if p[1] in F64_METHODS and len(args) == 1:
+                    return "(%s %s)" % (F64_METHODS[p[1]], self.ex(args[0]))
+                if p[1] == "atan2" and len(args) == 2:
+                    return "(natan2 %s %s)" % (self.ex(args[0]), self.ex(args[1]))
+                if p[1] in ("min", "max") and len(args) == 2:
+                    return "(n%s %s %s)" % (p[1], self.ex(args[0]), self.ex(args[1]))
+            if p == ["dist"] and len(args) == 2 and vdim(self.ty(args[0])):
+                return "(dist%d %s %s)" % (vdim(self.ty(args[0])), self.ex(args[0]), self.ex(args[1]))
             if len(p) == 2 and p[0] == "Unit" and len(args) == 1:
                 d = vdim(self.ty(args[0]))
                 if d and p[1] == "new_normalize":
